@@ -34,7 +34,7 @@ func init() { harness.Register(check{}) }
 func (check) ID() string    { return "C10" }
 func (check) Level() string { return "exploration" }
 func (check) Rule() string {
-	return "stress sessions under the Go race detector on an in-memory console: 2-16 producer goroutines mixing PostEvent / PostEventBlocking / SyncFunc / Resize with unique (producer, sequence) ids, 0-3 query goroutines (CursorPosition, colour queries, ClipboardPop with a deadline), terminal input arriving in bursts including lone ESC around the Escape timer and in-band resize reports, a spinner widget started/stopped/toggled from several goroutines, the main goroutine draining events, drawing and rendering (at full speed or slowly), random Suspend/Resume, Close at the end (sometimes while input is still arriving), event-queue sizes {16, 1024} (and {1, 2} for the not-draining shutdown scenario), delay points armed at random to widen windows. Oracles: race-detector reports with a vaxis frame; per-producer order and exactly-once delivery of blocking posts; completion of Close/Suspend (else goroutine-dump evidence); goroutines created in vaxis code still alive after Close. A case is one session; distinct = hash of its parameters; interleaving diversity is measured as distinct orders of observed hook/API events"
+	return "stress sessions under the Go race detector on an in-memory console: 2-16 producer goroutines mixing PostEvent / PostEventBlocking / SyncFunc / Resize with unique (producer, sequence) ids, 0-3 query goroutines (CursorPosition, colour queries, ClipboardPop with a deadline), terminal input arriving in bursts including lone ESC around the Escape timer and in-band resize reports, a spinner widget started/stopped/toggled from several goroutines, the main goroutine draining events, drawing and rendering (at full speed or slowly), random Suspend/Resume, Close at the end (sometimes while input is still arriving), event-queue sizes {16, 1024} (and {1, 2} for the not-draining shutdown scenario), delay points armed at random to widen windows; signal sessions with a backlog (400 keys queued behind a full queue of 1, 8 or 32 events, the signal, then the application reads again: the console must be closed and no library goroutine left). Oracles: race-detector reports with a vaxis frame; per-producer order and exactly-once delivery of blocking posts; completion of Close/Suspend (else goroutine-dump evidence); goroutines created in vaxis code still alive after Close. A case is one session; distinct = hash of its parameters; interleaving diversity is measured as distinct orders of observed hook/API events"
 }
 func (check) Assumptions() []string {
 	return []string{
@@ -671,6 +671,12 @@ func (c check) Run(w *harness.W, b harness.Batch) {
 		}
 	case "quiet-shutdown":
 		for i := 0; i < s.N; i++ {
+			if i%6 == 5 {
+				if !runSignalWithBacklog(w, gen.New(r.Int63())) {
+					break
+				}
+				continue
+			}
 			if i%3 == 2 {
 				if !runSignalThenClose(w, gen.New(r.Int63())) {
 					break
@@ -1014,6 +1020,97 @@ func runSignalThenClose(w *harness.W, r gen.R) bool {
 		return false
 	}
 	w.Sample(sc)
+	return true
+}
+
+// backlogCase: a termination signal arrives while typed input is still queued
+// behind a busy application: the event queue is full, the input goroutine is
+// parked posting, the parser's two-slot channel is full and the parser itself
+// is blocked handing over the next key. The application then reads its events
+// again (it never stopped for good, which is what the open finding about a
+// queue nobody drains is about). The library's own shutdown must complete: the
+// console is closed and no library goroutine is left (C10-q: nothing read the
+// parser's output while the signal path waited for the parser to stop).
+type backlogCase struct {
+	Caps      uint32 `json:"caps_mask"`
+	Signal    string `json:"signal"`
+	QueueSize int    `json:"queue_size"`
+	Keys      int    `json:"keys_typed_before_the_signal"`
+}
+
+func runSignalWithBacklog(w *harness.W, r gen.R) bool {
+	bc := backlogCase{Caps: []uint32{0, 0x1ffff}[r.Intn(2)], Signal: []string{"SIGTERM", "SIGINT"}[r.Intn(2)], QueueSize: []int{1, 8, 32}[r.Intn(3)], Keys: 400}
+	cj, _ := json.Marshal(bc)
+	w.Begin(string(cj))
+	defer w.End()
+	before := vaxisGoroutines()
+	t := refterm.New(40, 10, refterm.CapsFromMask(bc.Caps))
+	con := memcon.New(t)
+	vx, err := vaxis.New(vaxis.Options{WithConsole: con, EventQueueSize: bc.QueueSize})
+	if err != nil {
+		w.Inconclusive("start-failed")
+		return true
+	}
+	sess := &vxh.Session{Term: t, Con: con, Vx: vx}
+	if _, ok := sess.Sync(); !ok {
+		w.Inconclusive("startup-sync-timeout")
+		return true
+	}
+	w.Case("signal-backlog|" + string(cj))
+	w.Count("signal_with_backlog_sessions", 1)
+	con.Inject([]byte(strings.Repeat("k", bc.Keys)))
+	// the application is busy: wait until the queue is full (bounded wait; a
+	// queue that is not full yet only makes the case easier)
+	for i := 0; i < 200 && len(vx.Events()) < bc.QueueSize; i++ {
+		time.Sleep(time.Millisecond)
+	}
+	time.Sleep(5 * time.Millisecond)
+	sig := syscall.SIGTERM
+	if bc.Signal == "SIGINT" {
+		sig = syscall.SIGINT
+	}
+	syscall.Kill(os.Getpid(), sig)
+	// the application reads its events again
+	timeout := time.After(20 * time.Second)
+	tick := time.NewTicker(2 * time.Millisecond)
+	defer tick.Stop()
+	for closed := false; !closed; {
+		select {
+		case <-vx.Events():
+		case <-tick.C:
+			con.With(func() { closed = con.CloseCalls > 0 })
+		case <-timeout:
+			dump := harness.AllStacks()
+			if strings.Contains(dump, "ansi.(*Parser).WaitClose") {
+				w.ViolationStack("shutdown:signal-shutdown-never-completes:input-pending-behind-the-signal", "a termination signal arrived while typed keys were queued behind a full event queue; the application went on reading events, but the library's shutdown never completed: it waits for the parser, which is blocked handing over the next key", bc, "blocked in WaitClose after 20s", "console closed", dump[:min(len(dump), 6000)])
+			} else {
+				w.Inconclusive("signal-shutdown-timeout-without-corroboration")
+			}
+			return false
+		}
+	}
+	var after []string
+	for i := 0; i < 300; i++ {
+		after = vaxisGoroutines()
+		if len(after) <= len(before) {
+			break
+		}
+		select {
+		case <-vx.Events():
+		default:
+		}
+		time.Sleep(10 * time.Millisecond)
+	}
+	if len(after) > len(before) {
+		extra := diffList(before, after)
+		key := "leak:after-signal-with-backlog:" + strings.Join(extra, ",")
+		if len(key) > 120 {
+			key = key[:120]
+		}
+		w.Violation(key, "goroutines started by the library are still alive 3s after the signal-triggered shutdown: "+strings.Join(extra, ", "), bc, strings.Join(extra, ", "), "none")
+		return false
+	}
+	w.Sample(bc)
 	return true
 }
 
